@@ -15,7 +15,9 @@ IMPORTS = ("From Ahb Require Import Model.Prelude Model.Grammar Gen.Gen_logic Ge
            "Model.EvalRC Model.EvalFC Model.EvalAhb Model.Validate Corr.Eval Corr.Validate.")
 MM = ["Muss", "M", "muss", "m", "MUSS", "Soll", "S", "soll", "s", "Kann", "K", "kann", "k", "kANN"]
 PO = ["X", "O", "U", "x", "o", "u"]
-RC, HINTS, FCS = ["1", "2", "3", "4"], ["501", "502"], ["901", "902"]
+# small pools so that the same keys meet again; the boundary keys of the documented ranges are among them (499 is the last requirement constraint of the
+# first range, 500 / 900 the first / last hint, 999 the last format constraint)
+RC, HINTS, FCS = ["1", "2", "3", "4", "499"], ["501", "502", "900", "500"], ["901", "902", "999"]
 PACKAGES = {"1P": "[1] U [2]", "2P": "[3]", "3P": "[1][901]", "4P": "[501]", "9P": None}
 # package definitions vary from one content evaluation result to the next (same key, other expression)
 PACKAGE_CHOICES = {"1P": ["[1] U [2]", "[2]", "[1] O [4]"], "2P": ["[3]", "[4]", "[1] X [3]"], "3P": ["[1][901]", "[2][902]"], "4P": ["[501]", "[502]"], "9P": [None]}
